@@ -27,15 +27,7 @@ Definition sinit (p0 : pkgid) : sstate :=
 Definition s_vexp (s : sstate) (a : addr) : bool := match s_vheap s a with Some vv => vv_export vv | None => false end.
 Definition s_fexp (s : sstate) (a : addr) : bool := match s_fheap s a with Some fi => sf_export fi | None => false end.
 
-(* first used package with an exported own cell *)
-Fixpoint inherited {A} (own : pkgid -> name -> option A) (exp : A -> bool) (us : list pkgid) (n : name) : option A :=
-  match us with
-  | [] => None
-  | q :: us' => match own q n with
-                | Some a => if exp a then Some a else inherited own exp us' n
-                | None => inherited own exp us' n
-                end
-  end.
+(* `inherited own exp us n` (Model.v): the first used package with an exported own cell *)
 Definition resolve_v (s : sstate) (p : pkgid) (n : name) : option addr :=
   match own_v s p n with Some a => Some a | None => inherited (own_v s) (s_vexp s) (s_uses s p) n end.
 Definition resolve_f (s : sstate) (p : pkgid) (n : name) : option addr :=
@@ -71,6 +63,28 @@ Definition s_setq (s : sstate) (n : name) (v : Z) : sstate :=
   | None => new_var s (s_cur s) n {| vv_pkg := Some (s_cur s); vv_val := Some v; vv_export := false |}
   end.
 
+(* export / unexport: function cell, then variable cell.  Export of a name without a variable interns the
+   symbol in p: an own, exported, unbound cell (its home is p: repaired code, C13-2) *)
+Definition sexport_f (s : sstate) (p : pkgid) (n : name) : sstate :=
+  match own_f s p n with Some a => set_fexp s a true | None => s end.
+Definition sexport_v (s1 : sstate) (p : pkgid) (n : name) : sstate :=
+  match own_v s1 p n with
+  | Some a => set_vexp s1 a true
+  | None => new_var s1 p n {| vv_pkg := Some p; vv_val := None; vv_export := true |}
+  end.
+Definition sunexport_f (s : sstate) (p : pkgid) (n : name) : sstate :=
+  match own_f s p n with Some a => set_fexp s a false | None => s end.
+Definition sunexport_v (s1 : sstate) (p : pkgid) (n : name) : sstate :=
+  match own_v s1 p n with Some a => set_vexp s1 a false | None => s1 end.
+(* the own symbol of (p, n) that export interned and that has no value yet: a function defined under it is
+   external and takes its place *)
+Definition exported_symbol (s : sstate) (p : pkgid) (n : name) : option addr :=
+  match own_v s p n with
+  | Some x => match s_vheap s x with
+              | Some vv => match vv_val vv with None => if vv_export vv then Some x else None | Some _ => None end
+              | None => None end
+  | None => None end.
+
 Definition sstep (s : sstate) (o : op) : sstate :=
   match o with
   | OInPkg p => {| s_vheap := s_vheap s; s_fheap := s_fheap s; own_v := own_v s; own_f := own_f s; s_vnext := s_vnext s;
@@ -83,15 +97,8 @@ Definition sstep (s : sstate) (o : op) : sstate :=
       if N.eqb p q then s
       else {| s_vheap := s_vheap s; s_fheap := s_fheap s; own_v := own_v s; own_f := own_f s; s_vnext := s_vnext s;
               s_fnext := s_fnext s; s_uses := upd (s_uses s) p (remove1 q (s_uses s p)); s_cur := s_cur s |}
-  | OExport n p =>
-      let s1 := match own_f s p n with Some a => set_fexp s a true | None => s end in
-      match own_v s1 p n with
-      | Some a => set_vexp s1 a true
-      | None => new_var s1 p n {| vv_pkg := None; vv_val := None; vv_export := true |}   (* the symbol is interned, unbound *)
-      end
-  | OUnexport n p =>
-      let s1 := match own_f s p n with Some a => set_fexp s a false | None => s end in
-      match own_v s1 p n with Some a => set_vexp s1 a false | None => s1 end
+  | OExport n p => sexport_v (sexport_f s p n) p n
+  | OUnexport n p => sunexport_v (sunexport_f s p n) p n
   | OSetq n v => s_setq s n v
   | ODefvar n v =>
       match resolve_v s (s_cur s) n with
@@ -110,9 +117,11 @@ Definition sstep (s : sstate) (o : op) : sstate :=
                           s_uses := s_uses s; s_cur := s_cur s |}
           | None => s end
       | None =>
+          let ex := match exported_symbol s (s_cur s) n with Some _ => true | None => false end in
           {| s_vheap := s_vheap s;
-             s_fheap := upd (s_fheap s) (s_fnext s) (Some {| sf_pkg := s_cur s; sf_val := v; sf_export := false |});
-             own_v := own_v s; own_f := upd2 (own_f s) (s_cur s) n (Some (s_fnext s));
+             s_fheap := upd (s_fheap s) (s_fnext s) (Some {| sf_pkg := s_cur s; sf_val := v; sf_export := ex |});
+             own_v := if ex then upd2 (own_v s) (s_cur s) n None else own_v s;
+             own_f := upd2 (own_f s) (s_cur s) n (Some (s_fnext s));
              s_vnext := s_vnext s; s_fnext := s_fnext s + 1; s_uses := s_uses s; s_cur := s_cur s |}
       end
   | OMakunbound n =>
@@ -154,7 +163,14 @@ Definition sobserve (P : list pkgid) (VN FN : list name) (s : sstate) : list qre
     flat_map (fun n => sq_var s c n :: flat_map (fun p => [sq_var_q s p n false; sq_var_q s p n true]) P) VN ++
     flat_map (fun n => sq_fun s c c n false :: flat_map (fun p => [sq_fun s c p n false; sq_fun s c p n true]) P) FN) P.
 
-(* ---- the guard: which steps the theorem covers (evaluated on the S state before the step) ---- *)
+(* ---- the guard: which steps the theorem covers (evaluated on the S state before the step).
+   After the repairs C13-1 .. C13-12 every clause is an instance of ONE remaining behaviour of package.go:
+   the tables of a package hold what it inherits next to what it owns, and Use / Unuse / Export / Unexport /
+   Remove / Undefine / DefLambda read and update those tables entry by entry instead of recomputing the
+   resolution (known findings C13-use-copies-inherited: inheritance is transitive at use time, slip's cl-user
+   umbrella relies on it; C13-no-fallback-in-uses-order: an entry that is retracted is not replaced by the
+   next used package's, an entry that appears does not take precedence over a later used package's).
+   Each clause says: what the code puts into the table entries it touches equals the new resolution. ---- *)
 Section Guard.
   Variable P : list pkgid.      (* all packages *)
   Variable NM : list name.      (* all names *)
@@ -163,86 +179,88 @@ Section Guard.
 
   Definition opt_addr_eqb (a b : option addr) : bool :=
     match a, b with Some x, Some y => N.eqb x y | None, None => true | _, _ => false end.
+  Definition is_some (a : option addr) : bool := match a with Some _ => true | None => false end.
+  (* what the table of q offers under n: any exported entry it holds, own or inherited *)
+  Definition offer (exp : addr -> bool) (r : option addr) : option addr :=
+    match r with Some a => if exp a then Some a else None | None => None end.
+  (* what q should offer: its own exported cell *)
+  Definition own_offer (own : pkgid -> name -> option addr) (exp : addr -> bool) (q : pkgid) (n : name) : option addr :=
+    offer exp (own q n).
+  (* share: users without an entry get a; retract: users holding a lose it *)
+  Definition shared (a : addr) (r : option addr) : option addr := match r with Some c => Some c | None => Some a end.
+  Definition retracted (a : addr) (r : option addr) : option addr :=
+    match r with Some c => if N.eqb c a then None else Some c | None => None end.
 
   Definition guard_step (s : sstate) (o : op) : bool :=
     match o with
-    | OInPkg p => mem p P
+    | OInPkg _ => true
     | OUse q p =>
-        (* no name conflict: nothing q exports is already visible in p under the same name *)
         mem p P && mem q P &&
-        forallb (fun n =>
-          (match own_v s q n with
-           | Some a => negb (s_vexp s a) || opt_addr_eqb (resolve_v s p n) None
-           | None => (* Package.Use also copies what q merely inherits: only harmless when p sees it already *)
-                     match resolve_v s q n with Some a => opt_addr_eqb (resolve_v s p n) (Some a) | None => true end
-           end) &&
-          (match own_f s q n with
-           | Some a => negb (s_fexp s a) || opt_addr_eqb (resolve_f s p n) None
-           | None => match resolve_f s q n with Some a => opt_addr_eqb (resolve_f s p n) (Some a) | None => true end
-           end)) NM
-    | OUnuse _ _ => false      (* Package.Unuse rebuilds from the used packages only: known finding *)
+        (N.eqb p q || mem q (s_uses s p) ||
+         (* Use copies every exported entry of q's table, also what q merely inherits: harmless when p has an
+            entry under that name already *)
+         forallb (fun n =>
+           (is_some (resolve_v s p n) || opt_addr_eqb (offer (s_vexp s) (resolve_v s q n)) (own_offer (own_v s) (s_vexp s) q n)) &&
+           (is_some (resolve_f s p n) || opt_addr_eqb (offer (s_fexp s) (resolve_f s q n)) (own_offer (own_f s) (s_fexp s) q n))) NM)
+    | OUnuse q p =>
+        N.eqb p q ||
+        (* Unuse inherits again from the tables of the remaining used packages (first exported entry, own or
+           inherited) *)
+        (let us := remove1 q (s_uses s p) in
+         forallb (fun n =>
+           (is_some (own_v s p n) || opt_addr_eqb (inherited (resolve_v s) (s_vexp s) us n) (inherited (own_v s) (s_vexp s) us n)) &&
+           (is_some (own_f s p n) || opt_addr_eqb (inherited (resolve_f s) (s_fexp s) us n) (inherited (own_f s) (s_fexp s) us n))) NM)
     | OExport n p =>
-        mem p P &&
-        (* the exported cells exist, are bound, and no user of p sees another cell under that name *)
-        (match own_v s p n, own_f s p n with
-         | None, None => false
-         | _, _ => true end) &&
-        (match own_v s p n with
-         | Some a => match s_vheap s a with Some vv => match vv_val vv with Some _ => true | None => false end | None => false end &&
-                     forallb (fun u => opt_addr_eqb (resolve_v s u n) None || opt_addr_eqb (resolve_v s u n) (Some a)) (s_users s p)
-         | None => (* Package.Export looks the name up in p's table, which also holds inherited entries: it would
-                      mark and push the inherited cell instead of interning a symbol of p *)
-                   opt_addr_eqb (resolve_v s p n) None end) &&
-        (match own_f s p n with
-         | Some a => forallb (fun u => opt_addr_eqb (resolve_f s u n) None || opt_addr_eqb (resolve_f s u n) (Some a)) (s_users s p)
-         | None => true end)
+        mem n NM &&
+        (* Export looks the name up in p's table: on an entry p merely inherits it would share the inherited cell
+           with p's users instead of interning a symbol of p *)
+        (is_some (own_f s p n) || negb (is_some (resolve_f s p n))) &&
+        (is_some (own_v s p n) || negb (is_some (resolve_v s p n))) &&
+        (let s1 := sexport_f s p n in let s2 := sexport_v s1 p n in
+         (match own_f s p n with
+          | Some a => forallb (fun u => opt_addr_eqb (resolve_f s1 u n) (shared a (resolve_f s u n))) (s_users s p)
+          | None => true end) &&
+         (let a := match own_v s p n with Some a => a | None => s_vnext s end in
+          forallb (fun u => opt_addr_eqb (resolve_v s2 u n) (shared a (resolve_v s1 u n))) (s_users s p)))
     | OUnexport n p =>
-        mem p P &&
-        (* Package.Unexport looks the name up in p's table: on an inherited entry it would clear the export
-           flag of the HOME package's cell (known finding), so p must own the cell or see nothing *)
-        (match own_v s p n with
-         | Some a => match s_vheap s a with Some vv => match vv_pkg vv with Some _ => true | None => false end | None => false end
-         | None => opt_addr_eqb (resolve_v s p n) None end) &&
-        (match own_f s p n with
-         | Some a => match s_fheap s a with Some fi => N.eqb (sf_pkg fi) p | None => false end
-         | None => opt_addr_eqb (resolve_f s p n) None end)
-    | OSetq n _ | ODefvar n _ =>
-        (* every user of the current package already sees the cell being set (SetIfHas pushes it) *)
-        match resolve_v s (s_cur s) n with
-        | Some a => forallb (fun u => opt_addr_eqb (resolve_v s u n) (Some a)) (s_users s (s_cur s))
-        | None => true
-        end
+        (let s1 := sunexport_f s p n in let s2 := sunexport_v s1 p n in
+         (match own_f s p n with
+          | Some a => forallb (fun u => opt_addr_eqb (resolve_f s1 u n) (retracted a (resolve_f s u n))) (s_users s p)
+          | None => true end) &&
+         (match own_v s p n with
+          | Some a => forallb (fun u => opt_addr_eqb (resolve_v s2 u n) (retracted a (resolve_v s1 u n))) (s_users s p)
+          | None => true end))
+    | OSetq n _ | ODefvar n _ => mem n NM
     | ODefun n _ =>
+        mem n NM &&
         match resolve_f s (s_cur s) n with
-        | Some a => opt_addr_eqb (own_f s (s_cur s) n) (Some a)     (* redefinition of an own function *)
-        | None => (* no exported-unbound variable of that name, own OR inherited: DefLambda reads the
-                     package's table, which holds inherited entries too (known finding) *)
-                  opt_addr_eqb (resolve_v s (s_cur s) n) None
+        | Some _ => true
+        | None =>
+            match exported_symbol s (s_cur s) n with
+            | Some x =>
+                let s' := sstep s o in
+                negb (is_some (resolve_v s' (s_cur s) n)) &&
+                forallb (fun u => opt_addr_eqb (resolve_v s' u n) (retracted x (resolve_v s u n)) &&
+                                  opt_addr_eqb (resolve_f s' u n) (shared (s_fnext s) (resolve_f s u n))) (s_users s (s_cur s))
+            | None => true
+            end
         end
     | OMakunbound n =>
-        match resolve_v s (s_cur s) n with
-        | Some a => opt_addr_eqb (own_v s (s_cur s) n) (Some a) &&
-                    match s_vheap s a with Some vv => match vv_pkg vv with Some _ => true | None => false end | None => false end
+        match own_v s (s_cur s) n with
+        | Some a =>
+            let s' := sstep s o in
+            negb (is_some (resolve_v s' (s_cur s) n)) &&
+            forallb (fun u => opt_addr_eqb (resolve_v s' u n) (retracted a (resolve_v s u n))) (s_users s (s_cur s))
         | None => true end
     | OFmakunbound n =>
-        match resolve_f s (s_cur s) n with
-        | Some a => opt_addr_eqb (own_f s (s_cur s) n) (Some a) && (negb (s_fexp s a) || match s_users s (s_cur s) with [] => true | _ => false end)
+        match own_f s (s_cur s) n with
+        | Some a =>
+            let s' := sstep s o in
+            negb (is_some (resolve_f s' (s_cur s) n)) &&
+            forallb (fun u => opt_addr_eqb (resolve_f s' u n) (retracted a (resolve_f s u n))) (s_users s (s_cur s))
         | None => true end
     end.
 End Guard.
-
-(* ---- name discipline of a history: a name is used either as a variable or as a function (as in the
-   harness: setq/defvar/makunbound and the variable queries on the names VN, defun/fmakunbound and the
-   calls on the names FN, VN and FN disjoint; export/unexport on either).  Without it `export` of a
-   function name makes `p:name` (read as a VARIABLE) the unbound marker: finding C13-unbound-marker-as-value ---- *)
-Definition sorted_op (VN FN : list name) (o : op) : bool :=
-  match o with
-  | OSetq n _ | ODefvar n _ | OMakunbound n => mem n VN
-  | ODefun n _ | OFmakunbound n => mem n FN
-  | OExport n _ | OUnexport n _ => mem n VN || mem n FN
-  | OInPkg _ | OUse _ _ | OUnuse _ _ => true
-  end.
-Definition disjoint_names (VN FN : list name) : bool := forallb (fun n => negb (mem n FN)) VN.
 
 Fixpoint srun (P : list pkgid) (VN FN : list name) (s : sstate) (ops : list op) : list (list qres) :=
   match ops with
@@ -259,12 +277,4 @@ Fixpoint guard_prefix (P : list pkgid) (NM : list name) (s : sstate) (ops : list
   match ops with
   | [] => 0
   | o :: ops' => if guard_step P NM s o then S (guard_prefix P NM (sstep s o) ops') else 0
-  end.
-(* length of the longest prefix that is guarded AND keeps the name discipline (NM = VN ++ FN): the
-   domain of the refinement theorem *)
-Fixpoint sorted_guard_prefix (P : list pkgid) (VN FN : list name) (s : sstate) (ops : list op) : nat :=
-  match ops with
-  | [] => 0
-  | o :: ops' => if sorted_op VN FN o && guard_step P (VN ++ FN) s o
-                 then S (sorted_guard_prefix P VN FN (sstep s o) ops') else 0
   end.
